@@ -135,6 +135,14 @@ def check_key(case, rec):
             rec.fail('own-key-not-selected:property', 'key %r (%s) defined as %r\n expected %r\n got      %r' % (key, syntax, body, exp, got))
             return
         want_marker = (not alts) or len(alts) > 1 or has_fields(alts[0])
+        # a tabstop's placeholder is handed to the field callback as written in the table, edge blanks included (`${1:inset }${2:hoff}`: the
+        # blank inside the first placeholder is the only separator there) — blank placement BETWEEN tokens stays unclaimed
+        if len(alts) == 1 or (alts and has_fields(alts[0])):
+            first_nq = re.sub(r'''"[^"]*"|'[^']*\'''', ' ', alts[0])
+            for ph in re.findall(r'\$\{\d+:([^{}]*)\}', first_nq):
+                if ph != ph.strip() and ('⟦%s⟧' % ph) not in marked:
+                    rec.fail('placeholder-text-changed', 'key %r defined as %r: placeholder %r not handed to the field callback verbatim: %r' % (key, body, ph, marked))
+                    break
         if ('⟦' in marked) != want_marker:
             rec.fail('tabstop-presence', 'key %r defined as %r: marker %s, output %r' % (key, body, 'missing' if want_marker else 'unexpected', marked))
     else:
